@@ -33,8 +33,8 @@ def timeOffsets (n : Nat) (T : α) : List α :=
 /-- angular radius of the Earth seen from the detector: `0.5π − arccos(R / D)` -/
 def alphaHorizon (R D : α) : α := 0.5 * pi - acos (R / D)
 
-/-- `np.clip(x, -1, 1)` (NaN passes through) -/
-def clipUnit (x : α) : α := if ltb x (-1) then -1 else if gtb x 1 then 1 else x
+/-- `np.clip(x, -1.0, 1.0)` (NaN passes through) -/
+def clipUnit (x : α) : α := if ltb x (-1.0) then -1.0 else if gtb x 1.0 then 1.0 else x
 
 /-- `get_beta_angle`: Earth-emergence angle of a line of sight with nadir angle `nad`
 (after fix F11 the arccos argument is clipped to [-1, 1]: lines of sight that miss the Earth give β = π or 0
